@@ -271,6 +271,27 @@ def g_c20_lines(repo):
                     if r[0] == 'reply' and term != ('eth', 'send'): bad.append('reply emitted but last event is %s' % (term,))
                     if r[0] != 'reply' and term == ('eth', 'send'): bad.append('eth send logged but no reply emitted')
                 if r[0] == 'panic': bad.append('panic: %s' % r[1])
+                if fmt == 'logfmt':
+                    # every line of every layer prints the addresses of the frame it is about: the request for recv/drop
+                    # (and, through the client record, for the send events of the IP and transport layers), the reply for
+                    # `arp send`; keys: mac_src/mac_dst/ip_src/ip_dst
+                    import witness as W_
+                    macs = lambda b: ':'.join('%02x' % x for x in b)
+                    q_ = W_.decode(fr) or {}
+                    a_ = W_.decode(r[1]) if r[0] == 'reply' else None
+                    for proto, verb, rest in evs:
+                        try: kv = dict(x.split('=', 1) for x in rest.split())
+                        except ValueError: continue
+                        want = {}
+                        if proto == 'arp':
+                            pk = a_ if verb == 'send' else q_
+                            if pk and pk.get('l3') == 'arp':
+                                want = {'mac_src': macs(pk['sha']), 'mac_dst': macs(pk['tha']), 'ip_src': socket.inet_ntoa(pk['spa']), 'ip_dst': socket.inet_ntoa(pk['tpa'])}
+                        elif 'eth_src' in q_:
+                            want = {'mac_src': macs(q_['eth_src']), 'mac_dst': macs(q_['eth_dst'])}
+                        for k, v in want.items():
+                            if k in kv and kv[k] != v:
+                                bad.append('%s %s prints %s=%s, the frame has %s' % (proto, verb, k, kv[k], v))
                 if fmt == 'logfmt' and facts:
                     for proto, verb, rest in evs:
                         if verb != 'recv' or proto in ('eth', 'arp'): continue
@@ -807,7 +828,7 @@ def find_witness(pid, failure, repo, build):
         w = None
         try:
             import witness
-            if pid in ('C01', 'C02', 'C03', 'C04', 'C05', 'C06', 'C07', 'C08', 'C09', 'C12', 'C13', 'C15', 'C18'):
+            if pid in ('C01', 'C02', 'C03', 'C04', 'C05', 'C06', 'C07', 'C08', 'C09', 'C12', 'C13', 'C15', 'C18', 'C19', 'C14', 'C16', 'C17'):
                 w = witness.search(pid, repo, budget_s=25.0)
         except Exception as e:
             w = None
